@@ -52,7 +52,11 @@ type Program struct {
 // EgoSource returns the complete Ego/Go source with a main that calls the
 // program's entry point.
 func (p Program) EgoSource() string {
-	return "package main\n\nimport \"fmt\"\n\n" + p.Body + "\nfunc main() {\n\t" + p.Prefix + "main()\n}\n"
+	imports := "import \"fmt\"\n"
+	if strings.Contains(p.Body, "errors.New(") {
+		imports += "import \"errors\"\n"
+	}
+	return "package main\n\n" + imports + "\n" + p.Body + "\nfunc main() {\n\t" + p.Prefix + "main()\n}\n"
 }
 
 var intTypes = []string{"int8", "int16", "int32", "int64", "int", "uint8", "uint16", "uint32", "uint64", "uint"}
@@ -112,6 +116,10 @@ type gen struct {
 	pendingDecls []string
 	// noDefer: no defer statement may be generated in the current function.
 	noDefer bool
+	// ego: also generate Ego-only constructs (try/catch, dynamic retyping,
+	// [] array literals, runtime errors inside try); the result is not a Go
+	// program any more.
+	ego bool
 }
 
 func (g *gen) f(s string) { g.feat[s] = true }
@@ -512,10 +520,19 @@ func (g *gen) stmt() {
 	g.budget--
 	g.stmtCount++
 	maxKind := 16
+	if g.ego {
+		maxKind = 20
+	}
 	if g.depth > 3 {
 		maxKind = 6
 	}
 	switch g.pick("stmt", maxKind) {
+	case 16, 17:
+		g.tryStmt()
+	case 18:
+		g.dynamicStmt()
+	case 19:
+		g.arrayLiteralStmt()
 	case 0, 1:
 		g.declStmt()
 	case 2, 3:
@@ -1062,6 +1079,56 @@ func (g *gen) deferStmt() {
 	}
 }
 
+// ---- Ego-only statements (EgoProgram) ----------------------------------------
+
+func (g *gen) tryStmt() {
+	g.f("try-catch")
+	g.line("try {")
+	g.depth++
+	g.push()
+	g.block(1 + g.pick("trybody", 2))
+	switch g.pick("tryerr", 4) {
+	case 0:
+		z, q := g.local("z"), g.local("q")
+		g.line("%s := 0", z)
+		g.line("%s := 7 / %s", q, z)
+		g.line(`fmt.Printf("unreachable %%d\n", %s)`, q)
+		g.f("try-div0")
+	case 1:
+		s := g.local("s")
+		g.line("%s := []int{1, 2}", s)
+		g.line(`fmt.Printf("unreachable %%d\n", %s[5])`, s)
+		g.f("try-index")
+	case 2:
+		g.line(`throw errors.New("oops")`)
+		g.f("try-throw")
+	default:
+		g.f("try-no-error")
+	}
+	g.pop()
+	g.depth--
+	e := g.local("err")
+	g.line("} catch (%s) {", e)
+	g.line("	"+`fmt.Printf("caught %%v\n", %s)`, e)
+	g.line("}")
+}
+
+func (g *gen) dynamicStmt() {
+	d := g.local("d")
+	g.line("%s := %s", d, g.literal("int"))
+	g.line(`fmt.Printf("%s=%%v\n", %s)`, d, d)
+	g.line(`%s = %s`, d, g.literal("string"))
+	g.line(`fmt.Printf("%s=%%v\n", %s)`, d, d)
+	g.f("dynamic-retype")
+}
+
+func (g *gen) arrayLiteralStmt() {
+	a := g.local("arr")
+	g.line("%s := [%s, %s, %s]", a, g.literal("int"), g.literal("int"), g.literal("int"))
+	g.line(`fmt.Printf("%s=%%v %%d\n", %s, len(%s))`, a, a, a)
+	g.f("ego-array-literal")
+}
+
 // ---- top-level declarations --------------------------------------------------
 
 func (g *gen) genStruct() {
@@ -1222,8 +1289,17 @@ func (g *gen) genRecursive() {
 }
 
 // GoProgram draws one program whose top-level names start with prefix.
-func GoProgram(t *rapid.T, prefix string) Program {
-	g := &gen{t: t, prefix: prefix, feat: map[string]bool{}, out: &strings.Builder{}}
+func GoProgram(t *rapid.T, prefix string) Program { return program(t, prefix, false) }
+
+// EgoProgram draws a program in the same style that additionally uses
+// Ego-only constructs (try/catch with runtime errors and throw, dynamic
+// retyping of a variable, [] array literals). It is not a Go program; it is
+// used where no Go reference is needed (C02, C04). Language extensions must be
+// enabled to run it.
+func EgoProgram(t *rapid.T, prefix string) Program { return program(t, prefix, true) }
+
+func program(t *rapid.T, prefix string, ego bool) Program {
+	g := &gen{t: t, prefix: prefix, feat: map[string]bool{}, out: &strings.Builder{}, ego: ego}
 	// active types: int always, plus a few others
 	all := append(append([]string{}, intTypes...), floatTypes...)
 	g.types = []string{"int"}
